@@ -110,7 +110,8 @@ def st_laws(draw):
             d = np.round(d * 16) / 16  # keep dyadic (may leave the cone slightly: still a valid test vector)
             sgn = draw(st.sampled_from([1, -1]))
             vecs.append((ref + sgn * d).tolist())
-    shift = draw(vec)
+    big = draw(st.sampled_from([1, 1, 1, 2 ** 10, 2 ** 17, 2 ** 21]))  # translations far from the origin stay exact
+    shift = [x * big for x in draw(vec)]
     scale = draw(st.sampled_from([0.25, 0.5, 2.0, 3.0, 8.0]))
     return {"cone": spec, "vecs": vecs, "shift": shift, "scale": scale}
 
